@@ -138,7 +138,7 @@ def buildOne (msl : Bool) (p : Params) (nstatics : Nat) (rs : List Res) (helpers
   let dflt := match pipe with | some pp => pp.dflt.getD 0 | none => 0
   let reserved := if msl then mslReserved else hlslReserved
   -- names the model cannot follow through the name generator (C15)
-  if (rs.any fun r => reserved.contains r.name) && (!msl || pipe.isSome) then "unsupported-renamed-global" else
+  if (rs.any fun r => reserved.contains r.name) then "unsupported-renamed-global" else
   let funcs := helpers ++ entries
   let nh := helpers.length
   -- overloads are renamed by the name generator, possibly onto another function's name (C15)
@@ -147,12 +147,15 @@ def buildOne (msl : Bool) (p : Params) (nstatics : Nat) (rs : List Res) (helpers
   if stageIds.any (fun k => match entries[k]? with | some f => reserved.contains f.name | none => true) && !msl then
     "unsupported-renamed-entry" else
   -- globals: statics are at positions 1.., resources at off..
-  let direct : Nat → List Sym := fun f =>
-    match funcs[f]? with
-    | none => []
-    | some fd => fd.uses.map (fun r => Sym.glob (off + r)) ++ fd.calls.map Sym.fn ++
-                 fd.statics.map (fun k => Sym.glob (1 + k))
-  let keys := List.range funcs.length
+  let direct : Sym → List Sym := fun k =>
+    match k with
+    | .glob _ => []   -- the generated globals have constant initialisers (or none)
+    | .fn f =>
+      match funcs[f]? with
+      | none => []
+      | some fd => fd.uses.map (fun r => Sym.glob (off + r)) ++ fd.calls.map Sym.fn ++
+                   fd.statics.map (fun k => Sym.glob (1 + k))
+  let keys := (List.range funcs.length).map Sym.fn ++ (List.range ds.length).map Sym.glob
   match recurse (funcs.length + 2) keys direct with
   | none => "unsupported-fuel"
   | some req =>
@@ -161,7 +164,7 @@ def buildOne (msl : Bool) (p : Params) (nstatics : Nat) (rs : List Res) (helpers
     let metaR := if msl then mslMeta p dflt usedAt ds else hlslMeta p dflt ds
     match slots, metaR with
     | .error e, _ => "panic:" ++ e
-    | _, .error e => "panic:" ++ e
+    | _, .error e => if e == "UnsupportedBindGroupIndex" then "err:UnsupportedBindGroupIndex" else "panic:" ++ e
     | .ok res, .ok groups =>
       let annR := annots (if msl then mslAnnot else hlslAnnot p) ds res.bindings
       match annR with
@@ -199,7 +202,11 @@ def handle (op : String) (args : List String) : String :=
         let parts := ps.map fun pp => buildOne msl p ns rs hs es (some pp)
         match parts.find? (·.startsWith "unsupported") with
         | some u => u
-        | none => " ## ".intercalate parts
+        | none =>
+          -- compile() stops at the first pipeline that fails to export
+          match parts.find? (·.startsWith "err:") with
+          | some e => e
+          | none => " ## ".intercalate parts
       else if mode.startsWith "name=" then
         let n := (mode.drop 5).toString
         match ps.find? (fun pp => pp.name == n) with
